@@ -4,7 +4,7 @@ import math
 import copy
 
 from sim.core import Violation, Inconclusive, InjectedAbort, RandomProxy, patched_random, close
-from sim.models import gen_mdp_spec, MDPView, make_mdp, sibling_mdp_spec, rotated_probability_spec, update_model_in_place
+from sim.models import nested_variant_spec, gen_mdp_spec, MDPView, make_mdp, sibling_mdp_spec, rotated_probability_spec, update_model_in_place
 from sim.refsolve import game_W
 from sim.ctx import RunCtx, make_scheduler, gen_sched
 from sim import shrink as shr
@@ -53,6 +53,8 @@ def gen_case(rng, tier, idx):
                reentrant=rng.random() < 0.25, reuse=rng.randrange(1000) if rng.random() < 0.15 else None,
                alias=rng.choice(('fresh', 'fresh', 'cached', 'shared', 'tuple')), explicit_lists=rng.random() < 0.15,
                model_update=rng.random() < 0.12)
+    if rng.random() < 0.1:
+        cfg['nest'] = rng.randrange(1000)
     plain = idx % 4 == 0     # fault-free baseline quarter
     sched = gen_sched(rng, ('P',) if plain else ('P', 'U', 'R', 'X'), thresholds=(0.5, float(cfg['rand_choose'])))
     if plain:
@@ -60,6 +62,7 @@ def gen_case(rng, tier, idx):
         cfg['reentrant'] = False
         cfg['reuse'] = None
         cfg['model_update'] = False
+        cfg['nest'] = None
     return dict(spec=spec, cfg=cfg, sched=sched)
 
 
@@ -79,7 +82,7 @@ def execute(case, script=None):
     ctx = RunCtx(PROP, view)
     ctx.W = game_W(view)
     ctx.declare_probes('episode_from_absorbing_start', 'bootstrap_from_absorbing', 'argmax_tie',
-                       'listener_reentry', 'step_size_one', 'learner_reused', 'no_seed_given', 'zero_episodes', 'rerun_after_abort', 'model_updated_in_place')
+                       'listener_reentry', 'step_size_one', 'learner_reused', 'no_seed_given', 'zero_episodes', 'rerun_after_abort', 'model_updated_in_place', 'nested_run')
     sched = make_scheduler(case, script, ctx)
     try:
         return _execute(td, view, cfg, ctx, sched)
@@ -287,7 +290,32 @@ def _execute(td, view, cfg, ctx, sched):
                         pass
                 ctx.W = W0
                 state['main'] = True
+            hookN = None
+            if cfg.get('nest') is not None:
+                # fault F10: at the k-th model call-back of the real training run, ANOTHER learner object of the same class
+                # (same seed and parameters, other initial values) is trained on another problem with the same state and
+                # action keys (other absorbing set / discount, probabilities, rewards)
+                nv = MDPView(nested_variant_spec(view.spec, cfg['nest']))
+                nW = game_W(nv)
+                nkw = dict(kwargs, initial_q=(lambda s, a: 3.5 + 0.125 * (sid[s] + 2 * aid[a])) if cfg['nest'] % 2 else 3.5, episodes=1 + cfg['nest'] % 3)
+
+                def nested():
+                    ctx.probe('nested_run')
+                    state['main'] = False
+                    try:
+                        ctx.W = nW
+                        rn = cls(**nkw).train_on(make_mdp(nv, None, explicit_lists=cfg.get('explicit_lists', False)))
+                        for _s in range(view.N):
+                            try:
+                                rn.policy.action_dist(sk[_s])
+                            except Exception:
+                                pass
+                    finally:
+                        state['main'] = True
+                hookN = ctx.nest_after(1 + cfg['nest'] % 50, nested)
             res = learner.train_on(mdp)
+            if hookN is not None:
+                ctx.disarm(hookN)
         except (Violation, Inconclusive):
             raise
         except Exception as e:
